@@ -1,5 +1,6 @@
 import Sebuf.Gen.Templates
 import Sebuf.Gen.Wiring
+import Sebuf.Lemmas.OutDir
 /-!
 # C14 — go-http and go-client emit interchangeable codec files
 
@@ -91,5 +92,79 @@ theorem order_independent (hs : Bool) :
     (∀ p ∈ overlay (plan Gen.Wiring.goClient Gen.Wiring.goClientEmits hs) (plan Gen.Wiring.goHttp Gen.Wiring.goHttpEmits hs),
          p ∈ overlay (plan Gen.Wiring.goHttp Gen.Wiring.goHttpEmits hs) (plan Gen.Wiring.goClient Gen.Wiring.goClientEmits hs)) := by
   cases hs <;> decide
+
+/-! ## The output directory itself
+
+The statement "the result of generating both into one directory does not depend on plugin order",
+for ANY two outputs and ANY directory they land in: the hypothesis is exactly what the first half of
+the property gives (same name ⇒ same content, `OutDir.Agree`; the `emit_files` correspondence checks
+it on the real `CodeGeneratorResponse`s), the conclusion is about every name of the directory. The
+converse shows the hypothesis is needed: one shared name with two contents and the order shows. -/
+open OutDir in
+/-- **plugin order does not matter** when the two outputs agree on the names they share. -/
+theorem directory_order_free (a b : List (String × String)) (ha : Functional a) (hb : Functional b)
+    (hab : Agree a b) (d : Dir) (k : String) :
+    writeAll (writeAll d a) b k = writeAll (writeAll d b) a k := by
+  have key : ∀ c, writeAll (writeAll d a) b k = some c ↔ writeAll (writeAll d b) a k = some c := by
+    intro c
+    rw [writeAll_spec b hb, writeAll_spec a ha, writeAll_spec a ha, writeAll_spec b hb]
+    constructor
+    · rintro (h | ⟨hn, h | ⟨hn', hd⟩⟩)
+      · by_cases hex : ∃ p ∈ a, p.1 = k
+        · obtain ⟨p, hp, hpk⟩ := hex
+          have := hab p hp (k, c) h hpk
+          have hpe : p = (k, c) := pair_eq hpk this
+          left; rw [← hpe]; exact hp
+        · exact Or.inr ⟨fun p hp hk => hex ⟨p, hp, hk⟩, Or.inl h⟩
+      · exact Or.inl h
+      · exact Or.inr ⟨hn', Or.inr ⟨hn, hd⟩⟩
+    · rintro (h | ⟨hn, h | ⟨hn', hd⟩⟩)
+      · by_cases hex : ∃ p ∈ b, p.1 = k
+        · obtain ⟨p, hp, hpk⟩ := hex
+          have := hab (k, c) h p hp hpk.symm
+          have hpe : p = (k, c) := pair_eq hpk this.symm
+          left; rw [← hpe]; exact hp
+        · exact Or.inr ⟨fun p hp hk => hex ⟨p, hp, hk⟩, Or.inl h⟩
+      · exact Or.inl h
+      · exact Or.inr ⟨hn', Or.inr ⟨hn, hd⟩⟩
+  cases h1 : writeAll (writeAll d a) b k with
+  | none =>
+    cases h2 : writeAll (writeAll d b) a k with
+    | none => rfl
+    | some c => have := (key c).2 h2; rw [h1] at this; cases this
+  | some c => exact ((key c).1 h1).symm
+
+open OutDir in
+/-- **the hypothesis is needed**: a single shared name with two contents makes the directory depend
+on which plugin ran last — at that name it holds the content of whichever output was written second. -/
+theorem directory_order_matters (a b : List (String × String)) (ha : Functional a) (hb : Functional b)
+    (d : Dir) (k ca cb : String) (hka : (k, ca) ∈ a) (hkb : (k, cb) ∈ b) (hne : ca ≠ cb) :
+    writeAll (writeAll d a) b k = some cb ∧ writeAll (writeAll d b) a k = some ca ∧
+    writeAll (writeAll d a) b k ≠ writeAll (writeAll d b) a k := by
+  have h1 : writeAll (writeAll d a) b k = some cb := (writeAll_spec b hb _ k cb).2 (Or.inl hkb)
+  have h2 : writeAll (writeAll d b) a k = some ca := (writeAll_spec a ha _ k ca).2 (Or.inl hka)
+  refine ⟨h1, h2, ?_⟩
+  rw [h1, h2]; intro h; exact hne (Option.some.inj h).symm
+
+open OutDir in
+/-- a name only one plugin emits ends up with that plugin's content whatever the order. -/
+theorem directory_single_owner (a b : List (String × String)) (ha : Functional a) (hb : Functional b)
+    (d : Dir) (k c : String) (hka : (k, c) ∈ a) (hnb : ∀ p ∈ b, p.1 ≠ k) :
+    writeAll (writeAll d a) b k = some c ∧ writeAll (writeAll d b) a k = some c :=
+  ⟨(writeAll_spec b hb _ k c).2 (Or.inr ⟨hnb, (writeAll_spec a ha _ k c).2 (Or.inl hka)⟩),
+   (writeAll_spec a ha _ k c).2 (Or.inl hka)⟩
+
+/-- the hypotheses are met by a non-trivial pair of outputs (a shared codec file, one file each of
+their own), and the two orders then leave the same three files. -/
+example :
+    let a := [("x_http.pb.go", "server"), ("x_nullable.pb.go", "codec")]
+    let b := [("x_client.pb.go", "client"), ("x_nullable.pb.go", "codec")]
+    OutDir.Functional a ∧ OutDir.Functional b ∧ OutDir.Agree a b ∧
+      OutDir.writeAll (OutDir.writeAll (fun _ => none) a) b "x_nullable.pb.go" = some "codec" := by
+  refine ⟨?_, ?_, ?_, ?_⟩
+  · intro p hp q hq; simp at hp hq; rcases hp with rfl | rfl <;> rcases hq with rfl | rfl <;> simp
+  · intro p hp q hq; simp at hp hq; rcases hp with rfl | rfl <;> rcases hq with rfl | rfl <;> simp
+  · intro p hp q hq; simp at hp hq; rcases hp with rfl | rfl <;> rcases hq with rfl | rfl <;> simp
+  · simp [OutDir.writeAll, OutDir.write]
 
 end Sebuf.C14
